@@ -186,8 +186,11 @@ def run(chk, replay=None):
 
     step = 4 if quick else 1
     okc = 0
+    # the quick tier replays a quarter of the histories, drawn pseudo-randomly (a stride would pick the same combination
+    # of in_place flags / call kinds every time: TLC emits them in a regular order)
+    pick = random.Random(chk.seed * 7919 + 4)
     for ci in range(0, len(cases), 1):
-        if quick and (ci * 7 + chk.seed) % step:
+        if quick and pick.random() >= 1.0 / step:
             continue
         case = cases[ci]
         bad, key = check_case(case, ci)
